@@ -26,12 +26,13 @@ static inline bool inres(ClipType ct, bool s, bool c) {
 // path type in the region on its left, the other type's winding number `w2` there, and its direction d.
 static inline void set_counts(Active& e, FillRule r, int wl, int w2, int d) {
   e.wind_dx = d;
-  if (r == FillRule::EvenOdd) { e.wind_cnt = d; e.wind_cnt2 = (w2 & 1); }
+  if (r == FillRule::EvenOdd) { e.wind_cnt = nondet_bool() ? 1 : -1; e.wind_cnt2 = (w2 & 1); }   // EvenOdd: only |wind_cnt| == 1 is meaningful (IntersectEdges swaps the signs)
   else { e.wind_cnt = ((int64_t)wl * d >= 0) ? wl + d : wl; e.wind_cnt2 = w2; }
 }
 static inline bool counts_ok(const Active& e, FillRule r, int wl, int w2) {
-  Active t; set_counts(t, r, wl, w2, e.wind_dx);
-  return e.wind_cnt == t.wind_cnt && e.wind_cnt2 == t.wind_cnt2;
+  if (r == FillRule::EvenOdd) return (e.wind_cnt == 1 || e.wind_cnt == -1) && e.wind_cnt2 == (w2 & 1);
+  const int d = e.wind_dx;
+  return e.wind_cnt == (((int64_t)wl * d >= 0) ? wl + d : wl) && e.wind_cnt2 == w2;
 }
 static const int W = 1000000;
 static inline FillRule nd_rule() { return (FillRule)nd_int(0, 3); }
@@ -177,5 +178,111 @@ extern "C" void harness_setwind_open() {
   bool inS = fill(c.fillrule_, a.ws[a.k]), inC = fill(c.fillrule_, a.wc[a.k]);
   bool want = c.cliptype_ == ClipType::Intersection ? inC : c.cliptype_ == ClipType::Union ? (!inS && !inC) : !inC;
   VA(c.IsContributingOpen(e) == want);
+  verif_reach();
+}
+
+// ---------- C01.c: one IntersectEdges step preserves (I) and establishes (H) in the swapped order ----------------------------
+// (H): a closed edge is hot exactly when result membership differs across it. The contour operations are replaced by
+// recorders that apply only their effect on hotness: AddLocalMaxPoly closes both edges' contours (both become cold),
+// AddLocalMinPoly opens one (both become hot), AddOutPt changes nothing; SwapOutrecs is the real code.
+static OutRec* g_fresh;
+static int g_maxpoly, g_minpoly, g_outpt;
+extern "C" __attribute__((noinline)) OutPt* stub_maxpoly(ClipperBase* s, Active& e1, Active& e2, const Point64& pt) { g_maxpoly++; VA(e1.outrec && e2.outrec); e1.outrec = nullptr; e2.outrec = nullptr; return nullptr; }
+extern "C" __attribute__((noinline)) OutPt* stub_minpoly(ClipperBase* s, Active& e1, Active& e2, const Point64& pt, bool is_new) {
+  g_minpoly++; VA(!e1.outrec && !e2.outrec); e1.outrec = g_fresh; e2.outrec = g_fresh; g_fresh->front_edge = &e1; g_fresh->back_edge = &e2; return nullptr; }
+extern "C" __attribute__((noinline)) OutPt* stub_addoutpt(ClipperBase* s, const Active& e, const Point64& pt) { g_outpt++; VA(e.outrec != nullptr); return nullptr; }
+
+static inline bool inres2(ClipType ct, FillRule r, int ws, int wc) { return inres(ct, fill(r, ws), fill(r, wc)); }
+
+extern "C" void harness_intersect_step() {
+  ClipperBase& c = *new Clipper64();
+  FillRule r = nd_rule(); ClipType ct = nd_ct();
+  c.fillrule_ = r; c.cliptype_ = ct; c.has_open_paths_ = false;
+  const int WW = 1000;
+  int wsL = nd_int(-WW, WW), wcL = nd_int(-WW, WW);
+  bool clip1 = nondet_bool(), clip2 = nondet_bool(); int d1 = nd_dir(), d2 = nd_dir();
+  // regions: L | e1 | M | e2 | R   --->   L | e2 | M' | e1 | R
+  int wsM = wsL + (clip1 ? 0 : d1), wcM = wcL + (clip1 ? d1 : 0);
+  int wsR = wsM + (clip2 ? 0 : d2), wcR = wcM + (clip2 ? d2 : 0);
+  int wsN = wsL + (clip2 ? 0 : d2), wcN = wcL + (clip2 ? d2 : 0);      // M'
+  Active& e1 = *new Active(); Active& e2 = *new Active(); Active& other = *new Active();
+  e1.local_min = mk_lm(clip1 ? PathType::Clip : PathType::Subject, false);
+  e2.local_min = mk_lm(clip2 ? PathType::Clip : PathType::Subject, false);
+  e1.next_in_ael = &e2; e2.prev_in_ael = &e1; c.actives_ = &e1;
+  set_counts(e1, r, clip1 ? wcL : wsL, clip1 ? wsL : wcL, d1);
+  set_counts(e2, r, clip2 ? wcM : wsM, clip2 ? wsM : wcM, d2);
+  // (H) before the crossing
+  bool inL = inres2(ct, r, wsL, wcL), inM = inres2(ct, r, wsM, wcM), inR = inres2(ct, r, wsR, wcR), inN = inres2(ct, r, wsN, wcN);
+  bool hot1 = inL != inM, hot2 = inM != inR;
+  OutRec* ra = new OutRec(); OutRec* rb = new OutRec(); g_fresh = new OutRec();
+  ra->idx = 0; rb->idx = 1; g_fresh->idx = 2;
+  bool same_rec = nondet_bool();            // two hot edges may bound the same contour (M inside, L and R outside or vice versa)
+  if (hot1) { e1.outrec = ra; }
+  if (hot2) { e2.outrec = (hot1 && same_rec) ? ra : rb; }
+  // sides: within one contour the two bounding edges are on opposite sides; otherwise the partner is some other edge
+  bool front1 = nondet_bool(), front2 = nondet_bool();
+  if (hot1 && hot2 && same_rec) { ra->front_edge = front1 ? &e1 : &e2; ra->back_edge = front1 ? &e2 : &e1; }
+  else {
+    if (hot1) { ra->front_edge = front1 ? &e1 : &other; ra->back_edge = front1 ? &other : &e1; }
+    if (hot2) { rb->front_edge = front2 ? &e2 : &other; rb->back_edge = front2 ? &other : &e2; }
+  }
+  Point64 pt(nd_range(-100, 100), nd_range(-100, 100));
+  g_maxpoly = g_minpoly = g_outpt = 0;
+  c.IntersectEdges(e1, e2, pt);
+  // (I) in the swapped order
+  VA(counts_ok(e2, r, clip2 ? wcL : wsL, clip2 ? wsL : wcL));
+  VA(counts_ok(e1, r, clip1 ? wcN : wsN, clip1 ? wsN : wcN));
+  // (H) in the swapped order
+  VA((e2.outrec != nullptr) == (inL != inN));
+  VA((e1.outrec != nullptr) == (inN != inR));
+  // a vertex is emitted whenever a contour changes edge at the crossing (some edge's hotness changes), and never when no contour is involved
+  bool hot2_after = inL != inN, hot1_after = inN != inR;
+  int emitted = g_maxpoly + g_minpoly + g_outpt;
+  if (hot1 != hot1_after || hot2 != hot2_after) VA(emitted > 0);
+  if (!hot1 && !hot2 && !hot1_after && !hot2_after) VA(emitted == 0);
+  verif_reach();
+}
+
+// ---------- C05.c: an open edge crossing a closed edge toggles its contribution exactly at result-region boundaries -----------
+static bool contrib_open(ClipType ct, FillRule r, int ws, int wc) {
+  bool inS = fill(r, ws), inC = fill(r, wc);
+  return ct == ClipType::Intersection ? inC : ct == ClipType::Union ? (!inS && !inC) : !inC;
+}
+static int g_startopen;
+extern "C" __attribute__((noinline)) OutPt* stub_startopen(ClipperBase* s, Active& e, const Point64& pt) { g_startopen++; VA(!e.outrec); e.outrec = g_fresh; g_fresh->is_open = true; g_fresh->front_edge = &e; return nullptr; }
+
+extern "C" void harness_intersect_open_step() {
+  ClipperBase& c = *new Clipper64();
+  FillRule r = nd_rule(); ClipType ct = nd_ct();
+  c.fillrule_ = r; c.cliptype_ = ct; c.has_open_paths_ = true;
+  const int WW = 1000;
+  int wsL = nd_int(-WW, WW), wcL = nd_int(-WW, WW);            // region left of the closed edge
+  bool clipc = nondet_bool(); int dc = nd_dir();
+  int wsR = wsL + (clipc ? 0 : dc), wcR = wcL + (clipc ? dc : 0);
+  bool open_is_left = nondet_bool();                            // AEL order before the crossing: (open, closed) or (closed, open)
+  Active& eo = *new Active(); Active& ec = *new Active(); Active& other = *new Active();
+  g_v[0].pt = Point64((int64_t)1000, (int64_t)1000);            // local minimum vertex away from the crossing point
+  eo.local_min = mk_lm(PathType::Subject, true); ec.local_min = mk_lm(clipc ? PathType::Clip : PathType::Subject, false);
+  eo.wind_dx = nd_dir();
+  set_counts(ec, r, clipc ? wcL : wsL, clipc ? wsL : wcL, dc);
+  // (H) for the closed edge; the open edge is hot iff it contributes where it currently is
+  bool c_hot = inres2(ct, r, wsL, wcL) != inres2(ct, r, wsR, wcR);
+  int wsA = open_is_left ? wsL : wsR, wcA = open_is_left ? wcL : wcR, wsB = open_is_left ? wsR : wsL, wcB = open_is_left ? wcR : wcL;
+  bool o_hot = contrib_open(ct, r, wsA, wcA);
+  OutRec* ro = new OutRec(); OutRec* rc = new OutRec(); g_fresh = new OutRec(); ro->is_open = true;
+  if (o_hot) { eo.outrec = ro; if (eo.wind_dx > 0) ro->front_edge = &eo; else ro->back_edge = &eo; }
+  if (c_hot) { ec.outrec = rc; bool f = nondet_bool(); rc->front_edge = f ? &ec : &other; rc->back_edge = f ? &other : &ec; }
+  if (open_is_left) { eo.next_in_ael = &ec; ec.prev_in_ael = &eo; c.actives_ = &eo; } else { ec.next_in_ael = &eo; eo.prev_in_ael = &ec; c.actives_ = &ec; }
+  Point64 pt(nd_range(-100, 100), nd_range(-100, 100));
+  g_outpt = 0; g_startopen = 0;
+  if (open_is_left) c.IntersectEdges(eo, ec, pt); else c.IntersectEdges(ec, eo, pt);
+  // the open edge is hot afterwards exactly when it contributes on the other side of the closed edge
+  VA((eo.outrec != nullptr) == contrib_open(ct, r, wsB, wcB));
+  // the closed edge is untouched
+  VA((ec.outrec != nullptr) == c_hot);
+  VA(counts_ok(ec, r, clipc ? wcL : wsL, clipc ? wsL : wcL));
+  // a point is emitted iff the contribution changed
+  VA((g_outpt + g_startopen == 1) == (o_hot != contrib_open(ct, r, wsB, wcB)));
+  VA(g_outpt + g_startopen <= 1);
   verif_reach();
 }
